@@ -163,6 +163,28 @@ func init() {
 	libModels["reflect.Type.Kind"] = func(x *Exec, st *State, e *ast.CallExpr, a []Value, _ []types.Type) (Value, bool) {
 		return Term{"(rtKind " + asTerm(a[0]).S + ")", SInt}, true
 	}
+	for _, m := range []string{"Len", "NumIn", "NumOut", "NumField", "NumMethod"} {
+		m := m
+		if _, ok := libModels["reflect.Type."+m]; !ok {
+			libModels["reflect.Type."+m] = func(x *Exec, st *State, e *ast.CallExpr, a []Value, _ []types.Type) (Value, bool) {
+				return x.uf("rt"+m, SInt, asTerm(a[0])), true
+			}
+		}
+	}
+	for _, m := range []string{"Elem", "Key"} {
+		m := m
+		if _, ok := libModels["reflect.Type."+m]; !ok {
+			libModels["reflect.Type."+m] = func(x *Exec, st *State, e *ast.CallExpr, a []Value, _ []types.Type) (Value, bool) {
+				return x.uf("rt"+m, SInt, asTerm(a[0])), true
+			}
+		}
+	}
+	libModels["fs.DirEntry.Name"] = func(x *Exec, st *State, e *ast.CallExpr, a []Value, _ []types.Type) (Value, bool) {
+		return x.uf("lib_DirEntry_Name", SStr, asTerm(a[0])), true
+	}
+	libModels["reflect.Type.ChanDir"] = func(x *Exec, st *State, e *ast.CallExpr, a []Value, _ []types.Type) (Value, bool) {
+		return x.uf("rtChanDir", SInt, asTerm(a[0])), true
+	}
 	setInt := func(x *Exec, st *State, e *ast.CallExpr, a []Value, _ []types.Type) (Value, bool) {
 		rv := asTerm(a[0])
 		x.rvWrite(st, "I", rv, x.wrapToKind(rvKindOf(rv), asTerm(a[1])))
